@@ -751,6 +751,10 @@ func (r *runner) calculateBranch(ctx context.Context, curNodeKey string, startCh
 			delete(skippedNodes, selected)
 		}
 	}
+	// a node this node also reaches through a plain control edge has been routed to: it is not skipped
+	for _, successor := range startChan.controls {
+		delete(skippedNodes, successor)
+	}
 	for skipped := range skippedNodes {
 		skippedNodeList = append(skippedNodeList, skipped)
 	}
